@@ -1,0 +1,17 @@
+//! file-out and mqtt-out targets (property C17).
+pub use crate::targets::verif::{file, mqtt};
+
+// Crates the harness needs to build the inputs of the targets; re-exported
+// so that the harness uses exactly the versions rotonda is built with.
+pub use chrono;
+pub use csv;
+pub use smallvec;
+pub use uuid;
+
+/// `roto_runtime::types::explode_announcements` (pub(crate)): the routes of
+/// a BGP UPDATE, as the units produce them.
+pub fn explode_announcements(
+    bgp_update: &routecore::bgp::message::UpdateMessage<bytes::Bytes>,
+) -> Result<Vec<crate::payload::RotondaRoute>, routecore::bgp::ParseError> {
+    crate::roto_runtime::types::explode_announcements(bgp_update)
+}
